@@ -486,6 +486,13 @@ impl Interface {
             }
         }
 
+        // Router advertisements processed above may have changed the SLAAC state; apply them now
+        // rather than at the next poll, which `poll_at` may place a whole lifetime away.
+        #[cfg(feature = "proto-ipv6-slaac")]
+        if self.inner.slaac.sync_required(timestamp) {
+            self.sync_slaac_state(timestamp)
+        }
+
         // Process egress.
         loop {
             match self.poll_egress(timestamp, device, sockets) {
